@@ -155,3 +155,67 @@ func CompactAddr(ip net.IP, port int) string {
 	b = append(b, byte(port>>8), byte(port))
 	return string(b)
 }
+
+// ---- asking a server things over the fake socket ----
+
+type Reply struct {
+	Raw  []byte
+	To   *net.UDPAddr
+	Dict benc.Dict
+	Err  error
+}
+
+func (r Reply) Y() string    { s, _ := benc.Str(r.Dict, "y"); return s }
+func (r Reply) T() string    { s, _ := benc.Str(r.Dict, "t"); return s }
+func (r Reply) R() benc.Dict { d, _ := benc.Sub(r.Dict, "r"); return d }
+func (r Reply) ErrCode() int64 {
+	l, _ := benc.Lst(r.Dict, "e")
+	if len(l) > 0 {
+		c, _ := l[0].(int64)
+		return c
+	}
+	return 0
+}
+
+// Exchange injects the datagrams (each from its own source) back to back, waits for quiescence and
+// returns everything the server wrote meanwhile, keyed by destination "ip:port".
+func (n *Node) Exchange(extraOK func(census.G) bool, msgs [][]byte, from []*net.UDPAddr) (map[string][]Reply, []Reply, error) {
+	mark := n.Conn.NumCaptured()
+	for i := range msgs {
+		n.Conn.Inject(msgs[i], from[i])
+	}
+	if err := n.Quiesce(extraOK); err != nil {
+		return nil, nil, err
+	}
+	by := map[string][]Reply{}
+	var all []Reply
+	for _, d := range n.Conn.Captured(mark) {
+		r := Reply{Raw: d.B, To: d.To}
+		r.Dict, r.Err = benc.DecodeDict(d.B)
+		by[d.To.String()] = append(by[d.To.String()], r)
+		all = append(all, r)
+	}
+	return by, all, nil
+}
+
+// Ask is Exchange for one datagram.
+func (n *Node) Ask(msg []byte, from *net.UDPAddr) ([]Reply, error) {
+	by, _, err := n.Exchange(nil, [][]byte{msg}, []*net.UDPAddr{from})
+	return by[from.String()], err
+}
+
+// Token obtains a write token for from's IP with a get query (works with or without a peer store).
+func (n *Node) Token(from *net.UDPAddr, sender [20]byte) (string, error) {
+	rs, err := n.Ask(Query("get", "tk", benc.Dict{"id": sender, "target": [20]byte{1}}), from)
+	if err != nil {
+		return "", err
+	}
+	if len(rs) != 1 {
+		return "", fmt.Errorf("get from %v: %d replies", from, len(rs))
+	}
+	tok, ok := benc.Str(rs[0].R(), "token")
+	if !ok {
+		return "", fmt.Errorf("get from %v: reply without token: %q", from, rs[0].Raw)
+	}
+	return tok, nil
+}
